@@ -81,7 +81,7 @@ fn main() {
                 real: REAL,
                 stub: STUB,
                 assumptions: &["storage errors are not injected here (a storage failure mid-commit is the poison-and-reopen contract, not a refusal)", "reader answers are compared with the same query AS OF every committed boundary (C18 checks AS OF independently)", "the space sequence counter is excluded from the comparison (DESCRIBE SPACE is not part of the battery)"],
-                required_probes: &["commits_checked", "dry_runs_checked", "refused:IdentityConflict", "refused:VersionConflict", "refused:SchemaSymbolNotFound", "concurrent_reads_checked"],
+                required_probes: &["commits_checked", "dry_runs_checked", "refused:IdentityConflict", "refused:VersionConflict", "refused:SchemaSymbolNotFound", "refused:NotAuthorized", "concurrent_reads_checked"],
                 required_faults: &[],
             },
             vec![(
